@@ -432,6 +432,12 @@ func (pk *PublicKey) parseDSA(r io.Reader) (err error) {
 		return
 	}
 
+	// FIPS 186-4 stops at a 3072-bit p and a 256-bit q; verifying a signature costs an exponentiation of the size of
+	// q modulo p, so parameters far beyond that (MPIs go up to 65535 bits) turn every self-signature into minutes of work
+	if pk.p.bitLength > 8192 || pk.q.bitLength > 512 {
+		return errors.UnsupportedError("DSA parameters of " + strconv.Itoa(int(pk.p.bitLength)) + "/" + strconv.Itoa(int(pk.q.bitLength)) + " bits")
+	}
+
 	dsa := new(dsa.PublicKey)
 	dsa.P = new(big.Int).SetBytes(pk.p.bytes)
 	dsa.Q = new(big.Int).SetBytes(pk.q.bytes)
